@@ -188,7 +188,7 @@ func TestSizeSweep(t *testing.T) {
 								if !vk.Mine(idx) {
 									continue
 								}
-								c := memCase{Op: o.Name, Alg: alg, Mode: mode, Len: n, AadLen: []int{0, 13}[idx%2], Spare: sp, Dst: d, DstLen: []int{0, 5}[idx%2], Seed: uint64(idx) * 0x9e3779b97f4a7c15}
+								c := memCase{Op: o.Name, Alg: alg, Mode: mode, Len: n, AadLen: []int{0, 13}[idx%2], Spare: sp, Dst: d, DstLen: []int{0, 5}[idx%2], Mem: sweepMem(idx), Seed: uint64(idx) * 0x9e3779b97f4a7c15}
 								if target == "aad" {
 									c.Len, c.AadLen = []int{0, 16, 33, 48}[idx%4], n
 								}
